@@ -52,7 +52,7 @@ func decoderInputFileInfoIDs(infos []decoderInputFileInfo) []fileID {
 	return fileIDs
 }
 
-func makeDecoderInputFileInfos(fileIDs []fileID, fileDescriptionPackets map[fileID]fileDescriptionPacket, ifscPackets map[fileID]ifscPacket) ([]decoderInputFileInfo, error) {
+func makeDecoderInputFileInfos(sliceByteCount int, fileIDs []fileID, fileDescriptionPackets map[fileID]fileDescriptionPacket, ifscPackets map[fileID]ifscPacket) ([]decoderInputFileInfo, error) {
 	var decoderInputFileInfos []decoderInputFileInfo
 	for _, fileID := range fileIDs {
 		descriptionPacket, ok := fileDescriptionPackets[fileID]
@@ -62,6 +62,13 @@ func makeDecoderInputFileInfos(fileIDs []fileID, fileDescriptionPackets map[file
 		ifscPacket, ok := ifscPackets[fileID]
 		if !ok {
 			return nil, errors.New("input file slice checksum packet not found")
+		}
+		sliceCount := descriptionPacket.byteCount / sliceByteCount
+		if descriptionPacket.byteCount%sliceByteCount != 0 {
+			sliceCount++
+		}
+		if len(ifscPacket.checksumPairs) != sliceCount {
+			return nil, errors.New("slice checksum count does not match file length")
 		}
 		decoderInputFileInfos = append(decoderInputFileInfos, decoderInputFileInfo{
 			fileID,
@@ -266,12 +273,12 @@ func newDecoder(fileIO fileIO, delegate DecoderDelegate, indexPath string, numGo
 		return nil, errors.New("recovery packets found in index file")
 	}
 
-	recoverySet, err := makeDecoderInputFileInfos(indexFile.mainPacket.recoverySet, indexFile.fileDescriptionPackets, indexFile.ifscPackets)
+	recoverySet, err := makeDecoderInputFileInfos(indexFile.mainPacket.sliceByteCount, indexFile.mainPacket.recoverySet, indexFile.fileDescriptionPackets, indexFile.ifscPackets)
 	if err != nil {
 		return nil, err
 	}
 
-	nonRecoverySet, err := makeDecoderInputFileInfos(indexFile.mainPacket.nonRecoverySet, indexFile.fileDescriptionPackets, indexFile.ifscPackets)
+	nonRecoverySet, err := makeDecoderInputFileInfos(indexFile.mainPacket.sliceByteCount, indexFile.mainPacket.nonRecoverySet, indexFile.fileDescriptionPackets, indexFile.ifscPackets)
 	if err != nil {
 		return nil, err
 	}
